@@ -41,7 +41,8 @@ MIXED_NUM = '[3, 2.5, 10, 0.75, -1][NR % 5]'      # ints and floats in one colum
 DOLLAR_KEY = '["$$$", "$", "$$"][NR % 3]'      # string keys made of a character that is special in JavaScript replacement strings
 DOLLAR_LITS = ['$$$', '$', '$$']
 KEYWORD_LITERALS = ["' limit 2 '", "'top 1 distinct'", "' order by a1 desc'"]      # string literals are opaque: keywords inside them are data
-ITEMS = ['a1', 'a2', 'a3', 'NR', "'lit'", 'a1 + a2', 'NR % 2 - 2', 'NR % 3 - 2', 'a2', 'a1', LIST_ITEM, MIXED_NUM] + KEYWORD_LITERALS
+VALUE_AND_TEXT = "[7, '7', 2.5, '2.5', 7, '7'][NR % 6]"      # a value and its textual form in one column: distinct records, same printed form
+ITEMS = ['a1', 'a2', 'a3', 'NR', "'lit'", 'a1 + a2', 'NR % 2 - 2', 'NR % 3 - 2', 'a2', 'a1', LIST_ITEM, MIXED_NUM, VALUE_AND_TEXT] + KEYWORD_LITERALS
 UNNEST_ITEM = "UNNEST(a3.split(';'))"
 # rbql-js only: output values that JSON cannot carry. Each item yields one kind of special value next to ordinary ones,
 # so that "distinct" (which rbql-js decides on the JSON form of the record) and plain equality agree.
@@ -375,7 +376,7 @@ def generate(rng, tier, idx):
         sc['items'] = items = items + ['b2']
     sc['distinct'] = rng.choice([None, None, None, 'd', 'd', 'dc'])
     sc['order'] = None
-    sortable = [i for i in range(len(items)) if i != sc['unnest_at'] and items[i] != LIST_ITEM and not (items[i] == 'b2' and sc['join'] == 'left join')]
+    sortable = [i for i in range(len(items)) if i != sc['unnest_at'] and items[i] not in (LIST_ITEM, VALUE_AND_TEXT) and not (items[i] == 'b2' and sc['join'] == 'left join')]
     if rng.random() < 0.4 and sortable:
         cols = [rng.choice(sortable)]
         if rng.random() < 0.35 and len(sortable) > 1:
